@@ -67,7 +67,9 @@ CLAIMED["C19"] = ("model_checking",
     "DESIGN.md section 5 C19")
 
 BROKER_TECH = ("TLA+ specification Broker.tla (event-granular, one action per critical section of broker/client.go and MemoryBackend) bound to the real broker by trace "
-               "validation: scripted MQTT peers over harness-owned links, Backend wrapper, session-store hooks; every recorded trace checked by TLC (BrokerTrace.tla) incl. settlement")
+               "validation: scripted MQTT peers over harness-owned links, Backend wrapper, session-store hooks; every recorded trace checked by TLC (BrokerTrace.tla) incl. settlement; "
+               "the same actions closed with conformant scripted peers, link cuts and reconnects (BrokerMC.tla) are model-checked exhaustively for the end-to-end invariants "
+               "(Q2Once, NoLoss, NoDuplicateDelivery, OrderKept, InflightLeWindow, WillOnce, OneHolder, liveness Delivery) with reachability witnesses and a deviation")
 BROKER_NOTE = ("Trusted: TLC; the ordering argument of the harness (sends logged before, receives after, link queue + log entry atomic; store hooks under the store's lock); "
                "scripted peers; rejected scenarios are re-driven slowly before being reported; attribution by tagged guards at the high-water mark. Bounded scenario families, not all histories.")
 BROKER_TEXT = {
